@@ -408,6 +408,7 @@ package lang
 //@ ghost $lastExprArg Expr
 //@ ghost $lastOut error
 //@ ghost $mark int
+//@ ghost $selParsed int
 //@ ghost $pendingFile bool
 //@ ghost $lastDecode error
 
@@ -881,6 +882,10 @@ package lang
 //@   ensures[C11] success-means-no-fault: err == nil ==> !$faulted
 //@   init $pendingFile = false
 //@   init $mark = 0
+//@   init $selParsed = 0
+//@   after Parser.ParseExpression: $selParsed = (ret1 == nil ? $selParsed + 1 : $selParsed)
+//@   assert[C11,C14] nothing-runs-before-every-selector-has-parsed: $selParsed == len(rootSelectors) @ Evaluator.evalStatement
+//@   loop 0 invariant[C11,C14] selectors-parsed-so-far: !$faulted && $selParsed == rangeindex + 1
 //@   after encoding/json.NewDecoder: $pendingFile = true
 //@   after (*encoding/json.Decoder).Decode: $lastDecode = ret0
 //@   after (*encoding/json.Decoder).Decode: $pendingFile = (ret0 == extvar("io.EOF") ? false : $pendingFile)
@@ -890,16 +895,16 @@ package lang
 //@   assert[C02] pattern-rules-see-the-selected-root: ev.root == rootCell && arg1 == ev.patternRules @ Evaluator.evalPatternRules
 //@   assert?[C02] begin-and-end-rules-see-a-fresh-null: rule.Kind != BeginFileRule && rule.Kind != EndFileRule ==> ev.ruleRoot != nil && ev.ruleRoot.Value.Tag == ValueNil && ev.ruleRoot.Value.ParentObj == nil && newerThan(ev.ruleRoot, $mark) && arg1 == rule.Body @ Evaluator.evalStatement
 //@   exit[C03] decoder-errors-name-the-file: isJsonErr(err) ==> $lastDecode != nil && $lastDecode != extvar("io.EOF")
-//@   loop 0 invariant ready: drvOK(&ev) && !$faulted && $mark <= $alloc
-//@   loop 1 invariant ready: drvOK(&ev) && !$faulted && $mark <= $alloc && !$pendingFile
-//@   loop 2 invariant ready: drvOK(&ev) && !$faulted && $mark <= $alloc && $pendingFile
-//@   loop 3 invariant ready: drvOK(&ev) && !$faulted && $mark <= $alloc
-//@   loop 3 invariant[C02,C14] one-root-per-selector-so-far: len(rootCells) == rangeindex + 1
-//@   loop 4 invariant ready: drvOK(&ev) && !$faulted && $mark <= $alloc
-//@   loop 4 invariant[C02,C14] roots-of-this-value-only: len(rootCells) == (len(rootSelectors) > 0 ? len(rootSelectors) : 1)
-//@   loop 5 invariant ready: drvOK(&ev) && !$faulted && $mark <= $alloc
-//@   loop 6 invariant ready: drvOK(&ev) && !$faulted && $mark <= $alloc
-//@   loop 7 invariant[C03] ready-and-all-input-consumed: drvOK(&ev) && !$faulted && !$pendingFile && $mark <= $alloc
+//@   loop 1 invariant ready: $selParsed == len(rootSelectors) && drvOK(&ev) && !$faulted && $mark <= $alloc
+//@   loop 2 invariant ready: $selParsed == len(rootSelectors) && drvOK(&ev) && !$faulted && $mark <= $alloc && !$pendingFile
+//@   loop 3 invariant ready: $selParsed == len(rootSelectors) && drvOK(&ev) && !$faulted && $mark <= $alloc && $pendingFile
+//@   loop 4 invariant ready: $selParsed == len(rootSelectors) && drvOK(&ev) && !$faulted && $mark <= $alloc
+//@   loop 4 invariant[C02,C14] one-root-per-selector-so-far: len(rootCells) == rangeindex + 1
+//@   loop 5 invariant ready: $selParsed == len(rootSelectors) && drvOK(&ev) && !$faulted && $mark <= $alloc
+//@   loop 5 invariant[C02,C14] roots-of-this-value-only: len(rootCells) == (len(rootSelectors) > 0 ? len(rootSelectors) : 1)
+//@   loop 6 invariant ready: $selParsed == len(rootSelectors) && drvOK(&ev) && !$faulted && $mark <= $alloc
+//@   loop 7 invariant ready: $selParsed == len(rootSelectors) && drvOK(&ev) && !$faulted && $mark <= $alloc
+//@   loop 8 invariant[C03] ready-and-all-input-consumed: drvOK(&ev) && !$faulted && !$pendingFile && $mark <= $alloc
 //@   ensures[C01] evaluator-returned: (err == nil || isRT(err) || isJsonErr(err)) ==> result0 != nil
 
 // ---------------------------------------------------------------- parser (C01, C06, C07, C11, C13)
